@@ -53,11 +53,21 @@ void vf_harness(void) { const byte* p; int n, t; WebSocket_send_header(p, n, t);
 )
 UNITS = [send_header]
 
+# _socket.read<T>(): the peer's next sizeof(T) wire bytes, big-endian value w, converted to T exactly as the template does (so a change of T is seen as a
+# change of value, not as an extraction miss).  `note` records the wire value in ghost state where a contract needs it.
+SOCK_READ_RULE = (r'_socket\.read<([\w ]+?)>\(\)', lambda m: 'R_' + m.group(1).strip().replace(' ', '_') + '()', '+')
+def sock_read_stubs(note):
+    out = ''
+    for t, c, nd in [('unsigned short', 'unsigned short', 'nondet_u16'), ('short', 'short', 'nondet_u16'), ('Long', 'long long', 'nondet_i64'), ('ULong', 'unsigned long long', 'nondet_i64'),
+                     ('int', 'int', 'nondet_u32'), ('unsigned', 'unsigned', 'nondet_u32'), ('unsigned int', 'unsigned', 'nondet_u32')]:
+        out += 'static %s R_%s(void) { long long w = %s(); %s return (%s)w; }\n' % (c, t.replace(' ', '_'), nd, note, c)
+    return out
+
 # receive(): from reading the two header bytes to sizing the buffer.  Socket reads return ANY bytes (hostile peer);
 # the obligation is the precondition of Array::resize (C01): the new length is >= 0.
 RECV_HDR = lambda: Cut('rh', W, r'(_socket >> b0 >> mlen;(?:.|\n)*?buffer\.resize\(buffer\.length\(\) \+ len\);)', kind='expr',
     rules=[(r'DEBUG_LOG\([^;]*\);', '', None), (r'_socket >> b0 >> mlen;', 'b0 = R_U8(); mlen = R_U8();', 1),
-           (r'_socket\.read<unsigned short>\(\)', 'R_U16()', 1), (r'_socket\.read<Long>\(\)', 'R_I64()', 1), (r'\bLong len64\b', 'long long len64', None), (r'_socket >> mask;', 'mask = R_U32();', 1),
+           SOCK_READ_RULE, (r'\bLong len64\b', 'long long len64', None), (r'_socket >> mask;', 'mask = R_U32();', 1),
            (r'(?<![\w.>])closed\(\)', 'nondet_bool()', None), (r'return msg\.fix\(\);', '{ g_closed_ret = 1; return; }', None),
            (r'\b_closed\b', 'self_closed', None), (r'_socket\.close\(\);', 'g_socket_closed = 1;', None),
            (r'buffer\.resize\(buffer\.length\(\) \+ len\);', 'VF_RESIZE(g_buflen + len);', 1)])
@@ -68,9 +78,7 @@ recv_header = Unit(
     text=PRE + r'''
 bool nondet_bool(void); byte nondet_u8(void); unsigned short nondet_u16(void); unsigned nondet_u32(void); long long nondet_i64(void);
 static byte R_U8(void) { return nondet_u8(); }                 /* the peer may send anything */
-static unsigned short R_U16(void) { return nondet_u16(); }
-static unsigned R_U32(void) { return nondet_u32(); }
-static Long R_I64(void) { return nondet_i64(); }
+''' + sock_read_stubs('') + r'''static unsigned R_U32(void) { return nondet_u32(); }
 int g_buflen, g_newlen, g_resized, g_closed_ret, g_socket_closed; bool self_closed;
 #define VF_RESIZE(m) { g_newlen = (m); g_resized = 1; }
 void WebSocket_receive_header(void)
@@ -127,7 +135,7 @@ RECV_BODY = lambda: Cut('rb', W, r'^\twhile \(!haveMsg\)\s*$',
     rules=[(r'DEBUG_LOG\([^;]*\);', '', None),
            (r'ByteArray buffer;', 'int vf_buflen = 0; /* ByteArray buffer; : empty */', None),
            (r'_socket >> b0 >> mlen;', 'b0 = R_U8(); mlen = R_U8();', 1),
-           (r'_socket\.read<unsigned short>\(\)', 'R_U16()', 1), (r'_socket\.read<Long>\(\)', 'R_I64()', 1), (r'\bLong len64\b', 'long long len64', None),
+           SOCK_READ_RULE, (r'\bLong len64\b', 'long long len64', None),
            (r'_socket >> mask;', 'mask = R_U32();', 1),
            (r'(?<![\w.>])closed\(\)', 'nondet_bool()', None), (r'return msg\.fix\(\);', '{ g_returned = 1; return; }', None),
            (r'\b_closed\b', 'self_closed', None), (r'_socket\.close\(\);', ';', None),
@@ -147,9 +155,7 @@ recv_iter = Unit(
 bool nondet_bool(void); byte nondet_u8(void); unsigned short nondet_u16(void); unsigned nondet_u32(void); long long nondet_i64(void); int nondet_int(void);
 byte g_hdr[2]; int g_nread; long long g_ext;
 static byte R_U8(void) { byte b = nondet_u8(); if (g_nread < 2) g_hdr[g_nread] = b; g_nread++; return b; }
-static unsigned short R_U16(void) { g_ext = nondet_u16(); return (unsigned short)g_ext; }
-static unsigned R_U32(void) { return nondet_u32(); }
-static Long R_I64(void) { g_ext = nondet_i64(); return g_ext; }
+''' + sock_read_stubs('g_ext = w;') + r'''static unsigned R_U32(void) { return nondet_u32(); }
 int g_read, g_unmasked, g_appended, g_msglen, g_pong, g_returned; bool self_closed;
 int vf_buflen;     /* if the per-frame buffer were not created inside the loop, its content from the previous frame would still be there: any length */
 /* RFC 6455 5.2 payload length of the frame just read */
